@@ -79,8 +79,11 @@ def pool(kind, sdim, gen):
 
 def geo_of(kind, sdim, aniso):
     # aniso: False | True (anisotropic + rotated) | "axis" (anisotropic along the coordinate axes, all angles 0)
+    #        | "zrot" (3-D: anisotropic, first rotation angle exactly zero, the others not)
     rot = aniso is True
     if kind == "euclid":
+        if aniso == "zrot":
+            return kr.Geo("euclid", sdim, anis=[0.6, 1.4][: sdim - 1], angles=[0.0, -0.3, 0.8][: sdim * (sdim - 1) // 2])
         return kr.Geo("euclid", sdim, anis=[0.6, 1.4][: sdim - 1] if aniso else None, angles=[0.5, -0.3, 0.8][: sdim * (sdim - 1) // 2] if rot else None)
     if kind == "time":
         return kr.Geo("euclid+time", 2, anis=[0.6] if aniso else None, angles=[0.5] if rot else None, t_anis=0.5 if aniso else 1.0)
@@ -536,10 +539,12 @@ def run(chk):
                     continue
                 if cls == "Circular" and not (kind == "euclid" and sdim <= 2):
                     continue
-                for aniso in (False, True, "axis"):
+                for aniso in (False, True, "axis", "zrot"):
                     if kind == "euclid" and sdim == 1 and aniso:
                         continue
-                    if aniso == "axis" and (kind.startswith("latlon") or variant not in ("Universal", "UniversalCustom", "DriftExt", "GenericDrift", "Ordinary") or cls != "Exponential"):
+                    if aniso == "zrot" and not (kind == "euclid" and sdim == 3):
+                        continue
+                    if aniso in ("axis", "zrot") and (kind.startswith("latlon") or variant not in ("Universal", "UniversalCustom", "DriftExt", "GenericDrift", "Ordinary") or cls != "Exponential"):
                         continue
                     # complete subset sweep for the reference model of each configuration, selected layouts otherwise
                     full = cls == "Exponential" and not aniso and (tier != "quick" or variant in ("Simple", "Ordinary", "Universal"))
